@@ -31,7 +31,7 @@ META = {
     "bounds": {
         "quick": {"lexer_symbolic_str": "len <= 2, all of Unicode", "token_sequences": "<= 3 tokens over a 20-token alphabet (one per token class), "
                   "each gap '' or ' '", "shaped_templates": "14 templates x 2 operand holes over 9 operands", "regex_queries": "unbounded strings"},
-        "thorough": {"lexer_symbolic_str": "len <= 3", "token_sequences": "<= 3 tokens over the 30-token alphabet with gaps; <= 4 tokens (gaps ' ' only at length 4)",
+        "thorough": {"lexer_symbolic_str": "len <= 3", "token_sequences": "<= 3 tokens over the 30-token alphabet with gaps; <= 4 tokens over the 20-token alphabet (gaps ' ' only)",
                      "shaped_templates": "as quick with 3 holes where the template has them"},
     },
     "out_of_scope": ["strings longer than the token bound that are not instances of a shaped template", "identifiers / string "
@@ -341,10 +341,10 @@ def cases(tier, seed):
         cs.append({"id": f"x:tokens:first={alpha[first]}", "params": {"kind": "tokens", "n": 3, "first": first, "gaps": True,
                                                                       "alphabet": "full" if th else "quick"},
                    "budget_s": 3000 if th else 250})
-    for first in range(len(ALPHABET)):
+    for first in range(len(QUICK)):
         if th:
-            cs.append({"id": f"x:tokens4:first={ALPHABET[first]}", "params": {"kind": "tokens", "n": 4, "first": first, "gaps": False},
-                       "budget_s": 6000})
+            cs.append({"id": f"x:tokens4:first={QUICK[first]}", "params": {"kind": "tokens", "n": 4, "first": first, "gaps": False,
+                                                                        "alphabet": "quick"}, "budget_s": 6000})
     cs.append({"id": "x:tokens:twin", "params": {"kind": "tokens", "n": 3, "first": 0, "gaps": True}, "vacuity_twin": True,
                "stop_on_refute": True, "budget_s": 60})
     return cs
